@@ -68,9 +68,34 @@ def main():
 
     klen = z3.Int("prefix_operator_count")
 
+    def operand_payload(k):
+        """what visiting the operand returns: opaque, or a real expression of a shape a rewrite could look into"""
+        sh = cur.get("operand_shape", "opaque")
+        S = lambda t: ("string", t)
+        inner = ("ided", ("enum", "Expr::Ident", [S("y%d" % k)]))
+        if sh == "opaque":
+            return ("operand", k)
+        if sh == "identifier":
+            return ("enum", "Expr::Ident", [S("x%d" % k)])
+        if sh == "literal":
+            return ("enum", "Expr::Literal", [("enum", "Val::Int", [k])])
+        # a parenthesised prefix expression: `!(!y)`, `-(-y)`, `!(-y)`, `-(!y)`
+        return ("enum", "Expr::Call", [[S(ops["LOGICAL_NOT" if sh == "not call" else "NEGATE"]), ("None",), ("vec", [inner])]])
+
     def m_visit(e, m, a):
         cur["visits"] += 1
-        return ("ided", ("operand", cur["visits"]))
+        return ("ided", operand_payload(cur["visits"]))
+
+    def m_text_eq(e, m, a):
+        def txt(x):
+            x = deref(e, x)
+            x = deref(e, x)
+            if isinstance(x, tuple) and x[0] == "string":
+                return x[1]
+            if isinstance(x, tuple) and x[0] == "str":
+                return x[1].decode()
+            raise Unsupported("text of %r" % (str(x)[:60],))
+        return (txt(a[0]) == txt(a[1])) == (m.group(1) == "eq")
 
     def m_call_or_macro(e, m, a):
         name = a[2]
@@ -103,27 +128,43 @@ def main():
         (r"^ParserHelper::next_id$", lambda e, m, a: ("id_of", deref(e, a[1]))),
         (r"^<Rc<MemberContextAll<'_>> as AsRef<MemberContextAll<'_>>>::as_ref$", lambda e, m, a: ("member_ctx",)),
         (r"^<parser::Parser as ParseTreeVisitorCompat<'_>>::visit$", m_visit),
+        (r"^<(?:&)?(?:String|str|&str) as PartialEq(?:<(?:&)?(?:String|str|&str|&&str)>)?>::(eq|ne)$", m_text_eq),
+        (r"^<String as Deref>::deref$", lambda e, m, a: deref(e, a[0])),
+        (r"^String::as_str$", lambda e, m, a: deref(e, a[0])),
+        (r"^Vec::<IdedExpr>::len$", lambda e, m, a: len(deref(e, a[0])[1])),
+        (r"^Vec::<IdedExpr>::remove$", lambda e, m, a: deref(e, a[0])[1].pop(a[1])),
+        (r"^Vec::<IdedExpr>::pop$", lambda e, m, a: ("Some", deref(e, a[0])[1].pop()) if deref(e, a[0])[1] else ("None",)),
+        (r"^Vec::<IdedExpr>::swap_remove$", lambda e, m, a: deref(e, a[0])[1].pop(a[1])),
         (r"^parser::Parser::global_call_or_macro$", m_call_or_macro),
         (r"^<str as ToString>::to_string$", lambda e, m, a: ("string", a[0][1].decode())),
         (r"^Box::<\[IdedExpr; (\d+)\]>::new_uninit$", m_new_uninit),
         (r"^std::boxed::box_assume_init_into_vec_unsafe::<IdedExpr, \d+>$", m_assume_init),
     ] + STD_MODELS
 
-    def run_prefix(method, opname):
+    def run_prefix(method, opname, operand_shape="opaque"):
         stats["scenarios"] += 1
         fn = find(r"^parser::<impl at [^>]*>::%s(#\d+)?$" % method)
         eng = Engine(fns, consts, extern)
         eng.ext_const = ext_const
         eng.model_inputs = lambda: {"k": eng.solver.model().eval(klen, model_completion=True).as_long()}
-        desc = {"method": method, "operator": ops[opname]}
+        eng.discriminants = {"Expr::Unspecified": 0, "Expr::Call": 1, "Expr::Comprehension": 2, "Expr::Ident": 3, "Expr::List": 4,
+                             "Expr::Literal": 5, "Expr::Map": 6, "Expr::Select": 7, "Expr::Struct": 8}
+        desc = {"method": method, "operator": ops[opname], "operand_shape": operand_shape}
 
         def entry(e):
             cur.clear()
-            cur.update({"visits": 0, "calls": []})
+            cur.update({"visits": 0, "calls": [], "operand_shape": operand_shape})
             return e.call_fn(fn, [Ref({0: [Opaque("parser"), Opaque("helper"), Opaque("x")]}, 0, ()), Opaque("ctx")])
+
+        def norm(x):
+            # values that went through a place come back as lists: compare structure, not container type
+            if isinstance(x, (list, tuple)):
+                return tuple(norm(y) for y in x)
+            return x
 
         def on_path(res, e):
             probs = []
+            res = norm(res)
             even_possible = e.check(klen % 2 == 0)
             odd_possible = e.check(klen % 2 == 1)
             if even_possible and odd_possible:
@@ -131,13 +172,13 @@ def main():
             want = None
             if cur["visits"] < 1:
                 probs.append("the operand is never visited")
-            visited = [("ided", ("operand", k)) for k in range(1, cur["visits"] + 1)]
+            visited = [norm(("ided", operand_payload(k))) for k in range(1, cur["visits"] + 1)]
             last = visited[-1] if visited else None
             if even_possible:
                 if res not in visited:
                     probs.append("an even number of prefix operators does not cancel: the result is %s" % (str(res)[:160],))
             else:
-                wants = [("ided", ("call", ops[opname], ("vec", [v]))) for v in visited]
+                wants = [norm(("ided", ("call", ops[opname], ("vec", [v])))) for v in visited]
                 if res not in wants:
                     probs.append("an odd number of prefix operators is not one application of %s to the operand: %s" % (ops[opname], str(res)[:160]))
             if probs:
@@ -562,9 +603,24 @@ def main():
             stats["proved"] += 1
         stats["functions"] |= eng.stats["functions"]
 
+    undecided = []
     try:
+
+        def guarded(f):
+            # a scenario that meets an unmodelled call is undecided (never a pass); the other scenarios are still decided
+            def g(*a, **k):
+                try:
+                    return f(*a, **k)
+                except Unsupported as u:
+                    undecided.append("%s%r: %s" % (f.__name__, a, str(u)[:160]))
+            return g
+        run_prefix = guarded(run_prefix)
         run_prefix("visit_LogicalNot", "LOGICAL_NOT")
         run_prefix("visit_Negate", "NEGATE")
+        # the operand as a real expression: a parenthesised prefix expression of either operator, an identifier, a literal
+        for sh in ("not call", "negate call", "identifier", "literal"):
+            run_prefix("visit_LogicalNot", "LOGICAL_NOT", sh)
+            run_prefix("visit_Negate", "NEGATE", sh)
         for function in (ops["LOGICAL_AND"], ops["LOGICAL_OR"]):
             for n in range(1, (64 if DEPTH <= 3 else 160) + 1):
                 run_chain(n, function)
@@ -586,6 +642,9 @@ def main():
         if os.environ.get("MIRSYM_TRACE"):
             import traceback
             traceback.print_exc()
+    if undecided:
+        status = 2
+        print("INCONCLUSIVE: %d scenarios undecided, e.g. unsupported: %s" % (len(undecided), " || ".join(u[:200] for u in undecided[:6])))
     if failures:  # a counterexample stands even if a later scenario met an unmodelled call (it is replayed natively anyway)
         status = 1
     out = {"max_chain_depth_seen": max(cur_depths) if cur_depths else 0, "functions_encoded": sorted(stats["functions"]), "scenarios": stats["scenarios"], "paths": stats["paths"], "paths_proved": stats["proved"],
